@@ -19,13 +19,70 @@ def main():
     a = ap.parse_args()
     seed = int(os.environ.get('VERIF_SEED', '0'))
     if a.replay:
+        import json
+        d = json.load(open(a.replay))
+        if d.get('engine') == 'kani-playback':
+            from mirsym import check_kani
+            sys.exit(check_kani.replay_file(a.replay))
         from mirsym import check_trees
         sys.exit(check_trees.replay_file(a.replay))
+    from mirsym import check_kani, check_trees, common
+    import time
+    t0 = time.time()
+    rdir = os.path.join(common.VERIF, 'evidence', 'replay')
+    if os.path.isdir(rdir):
+        for f in os.listdir(rdir):
+            if f.startswith(a.pid + '-'):
+                os.unlink(os.path.join(rdir, f))
+    parts = []
+    engines = os.environ.get('VERIF_ENGINES', 'tree,kani').split(',')      # debugging aid; registered commands use both
+    if 'tree' not in engines:
+        TREE_PROPS.clear()
+    if 'kani' not in engines:
+        check_kani.PLAN.clear()
     if a.pid in TREE_PROPS:
-        from mirsym import check_trees
-        sys.exit(check_trees.run(a.pid, a.tier, seed, a.procs))
-    print(f'no check registered for {a.pid}', file=sys.stderr)
-    sys.exit(2)
+        parts.append(('tree', check_trees.run(a.pid, a.tier, seed, a.procs)))
+    if a.pid in check_kani.PLAN:
+        k = check_kani.run(a.pid, a.tier, seed)
+        if k is not None:
+            parts.append(('kani', k))
+    if not parts:
+        print(f'no check registered for {a.pid}', file=sys.stderr)
+        sys.exit(2)
+    ev = None
+    rc = 0
+    for kind, r in parts:
+        for l in r['lines']:
+            print(l)
+        if kind == 'tree':
+            ev = r['ev']
+    kani = dict(parts).get('kani')
+    if ev is None:
+        ev = {'property_id': a.pid, 'tier': a.tier, 'seed': seed, 'level': 'model_checking',
+              'coverage': {'states': max(1, kani['harnesses']), 'transitions': max(1, kani['checks']), 'traces_validated_against_impl': kani['confirmed'],
+                           'samples': kani['samples'],
+                           'explanation': 'states = proof harnesses decided by CBMC (each covers every input valuation within its bounds); transitions = CBMC checks (assertions, pointer/bounds/overflow checks, unwinding assertions) discharged'},
+              'assumptions': ['harnesses built against a scratch copy of /repo with --cfg ishape_rust_itree_verif; std code executed by Kani as compiled (no stubs)',
+                              'list pre-states: every sorted duplicate-free buffer of at most 3 entries built through the verif_from_raw hook (key list: any cached earliest expiration that is a lower bound)'],
+              'violations': 0}
+    if kani is not None:
+        ev['coverage'].update(kani['coverage'])
+        ev['coverage'].setdefault('inconclusive', [])
+        ev['coverage']['inconclusive'] = list(ev['coverage']['inconclusive']) + kani['inconclusive'][:10]
+        if 'tree' in dict(parts):
+            ev['coverage']['samples'] = ev['coverage']['samples'] + kani['samples'][:3]
+            ev['coverage']['transitions'] += kani['checks']
+            ev['coverage']['states'] += kani['harnesses']
+            ev['violations'] = ev.get('violations', 0) + kani['violations']
+        else:
+            ev['violations'] = kani['violations']
+        for m in kani['inconclusive']:
+            common.log(f'[{a.pid}] INCONCLUSIVE: {m}')
+    rcs = [r['rc'] for _, r in parts]
+    rc = 1 if 1 in rcs else (2 if 2 in rcs else 0)
+    ev['wall_s'] = round(time.time() - t0, 1)
+    common.write_evidence(a.pid, ev)
+    sys.exit(rc)
 
 
 if __name__ == '__main__':
